@@ -478,6 +478,12 @@ def run(ctx):
                             same_test = any(unparse(w_) in (f"{key} in {item}", f"str({key}) in {item}.tags") for w_ in n_.ast.values[:i_])
                 guarded = same_test or any(tv and a in (f"{key} in {item}", f"str({key}) in {item}.tags") for a, tv in fs_) \
                     or any(not tv and a in (f"{key} not in {item}",) for a, tv in fs_)
+                # (the early-continue form `if <other> and key not in item: continue`: on the way past it either the item carries the key or
+                # <other> failed - a case this rule does not split; it is not judged)
+                for t_, lab_ in gtg.guards(n_.id, exc=False):
+                    if lab_ != "true" and isinstance(t_, ast.BoolOp) and isinstance(t_.op, ast.And) \
+                            and any(unparse(w_) == f"{key} not in {item}" for w_ in t_.values):
+                        guarded = True
                 in_try = False
                 p_ = getattr(x, "_parent", None)
                 while p_ is not None and p_ is not gt:
